@@ -5,6 +5,17 @@ import (
 )
 
 func treeSort(top *token) *token {
+	// a "var ( ... )" group is a list of declarations like any other: its members take
+	// part in the ordering one by one
+	var flat []*token
+	for _, t := range top.Tokens {
+		if t.Symbol == "block" {
+			flat = append(flat, t.Tokens...)
+			continue
+		}
+		flat = append(flat, t)
+	}
+	top.Tokens = flat
 	tt := top.Tokens
 	priority := map[string]int{
 		"package":  100, // BUG: package never seen ???
@@ -20,6 +31,12 @@ func treeSort(top *token) *token {
 	rank := func(t *token) int {
 		if t.Symbol == "type" && len(t.Tokens) > 1 && t.Tokens[1].Symbol != "struct" && t.Tokens[1].Symbol != "interface" {
 			return priority["type"] + 5
+		}
+		// a variable declared without an initialiser (var x T) has its type and zero value
+		// before any initialiser runs: an initialiser that comes earlier in the source can
+		// call a function that assigns it
+		if t.Symbol == "var" && len(t.Tokens) > 1 && t.Tokens[1].Symbol == "," && len(t.Tokens[1].Tokens) == 0 {
+			return priority["function"] - 5
 		}
 		return priority[t.Symbol]
 	}
